@@ -127,6 +127,20 @@ def r1_r2_r5(repo, res):
             res.ob("C06.R5", f, f, lay_ok, expected="observation = (binned mapping quality, binned base quality of that base)",
                    found="ok" if lay_ok else detail, clause="each observation keeps its read's mapping quality and (binned) base quality",
                    key=f"layout:{name}")
+        if k == 2:
+            # deleted bases carry the read's mapping quality and the quality of the last base before the deletion
+            want_t = (binf(37), binf(qual[1]))
+            got_t = [tuple(per[p][0][1]) if per.get(p) else None for p in range(START + 2, START + 5)]
+            res.ob("C06.R5", f, f, all(t == want_t for t in got_t),
+                   expected=f"deleted-base observation = (binned mapping quality, binned quality of the preceding base) = {want_t}",
+                   found=str(got_t), clause="each observation keeps its read's mapping quality and (binned) base quality", key="layout:D")
+        if k == 1 and ins:
+            import statistics
+
+            want_t = (binf(37), binf(statistics.mean(qual[2:5])))
+            res.ob("C06.R5", f, f, tuple(ins[0][2]) == want_t,
+                   expected=f"insertion observation = (binned mapping quality, binned mean quality of the inserted bases) = {want_t}",
+                   found=str(tuple(ins[0][2])), key="layout:I")
 
 
 def r7_phase(repo, res):
@@ -314,11 +328,13 @@ def r4(repo, res):
         "unaligned": read_stub(None, seq="ACGT"),
         "supplementary": read_stub([(0, 4)], supplementary=True, seq="ACGT"),
         "hard-clipped": read_stub([(5, 2), (0, 4)], seq="ACGT"),
+        "hard-clipped at the 3' end only": read_stub([(0, 4), (5, 2)], seq="ACGT"),
+        "hard-clipped at both ends": read_stub([(5, 1), (0, 4), (5, 2)], seq="ACGT"),
         "outside-region": read_stub([(0, 4)], seq="ACGT", name="far"),
         "soft-clipped": read_stub([(4, 2), (0, 2)], seq="ACGT", quals=[30] * 4),
         "barcoded": read_stub([(0, 4)], seq="ACGT", quals=[30] * 4, tags={"BX": "b1", "MI": 7}),
     }
-    want_parsed = {"eligible", "soft-clipped", "barcoded"}
+    want_parsed = {"eligible", "soft-clipped", "barcoded"}  # every hard-clipped shape is skipped
     rows = {}
     try:
         for label, rd in reads.items():
@@ -545,6 +561,13 @@ MUTANTS = [
          old="                        if start + i in self.phaseable:\n                            phase[start + i] = \"_\"", new="                        if start + i in self.phaseable:\n                            phase[s_start + i] = \"_\""),
     dict(name="R4 contig matched by suffix (seeded C19_b2 shape)", module="sam", expect="C06.R4",
          old="    if read.reference_id == -1 or read.reference_name != prefix + region.chr:", new="    if read.reference_id == -1 or not read.reference_name.endswith(region.chr):"),
+    dict(name="R4 hard clip tested on the first op only (seeded C06_b1 shape)", module="sam", expect="C06.R4",
+         old='                if "H" in read.cigarstring:  # avoid hard-clipped reads', new="                if read.cigartuples[0][0] == 5:  # avoid hard-clipped reads"),
+    dict(name="R5 deleted-base tuple swapped (seeded C06_b2 shape)", module="sam", expect="C06.R5",
+         old='                    muts[start + i, "-"].append((bin_quality(mq), bin_quality(prev_q)))', new='                    muts[start + i, "-"].append((bin_quality(prev_q), bin_quality(mq)))'),
+    dict(name="R7 phase record only for catalogued substitutions (seeded C06_b3 shape)", module="sam", expect="C06.R7",
+         old="                        muts[mut].append((bin_quality(mq), bin_quality(q)))\n                        if start + i in self.phaseable:",
+         new="                        muts[mut].append((bin_quality(mq), bin_quality(q)))\n                        if mut in self.gene.mutations:"),
     # benign
     dict(name="benign: op chain rewritten", module="sam", kind="benign",
          old="            elif op in [0, 7, 8]:  # M, X and =", new="            elif op == 0 or op == 7 or op == 8:"),
